@@ -903,3 +903,36 @@ func c04FanInOdd(kind int) {
 
 func VerifC04FanInDuplicateKey() { c04FanInOdd(0) }
 func VerifC04FanInNilValue()     { c04FanInOdd(1) }
+
+// fan-in of two nodes typed any whose values are maps: the four paradigms give the same verdict
+func VerifC04FanInAnyTyped() {
+	ctx := context.Background()
+	vcfg("fifo", 1)
+	vcfg("selectfirst", 1)
+	g := NewGraph[string, any]()
+	_ = g.AddLambdaNode("a", InvokableLambda(func(ctx context.Context, in string) (any, error) { return map[string]any{"a": 1}, nil }))
+	_ = g.AddLambdaNode("b", InvokableLambda(func(ctx context.Context, in string) (any, error) { return map[string]any{"b": 2}, nil }))
+	_ = g.AddEdge(START, "a")
+	_ = g.AddEdge(START, "b")
+	_ = g.AddEdge("a", END)
+	_ = g.AddEdge("b", END)
+	r, err := g.Compile(ctx, WithNodeTriggerMode(AllPredecessor))
+	vassert(err == nil, "fan-in graph compiles")
+	_, e0 := r.Invoke(ctx, "x")
+	var e1 error
+	if sr, e := r.Stream(ctx, "x"); e != nil {
+		e1 = e
+	} else {
+		for i := 0; i < 4; i++ {
+			if _, e := sr.Recv(); e != nil {
+				if e != io.EOF {
+					e1 = e
+				}
+				break
+			}
+		}
+		sr.Close()
+	}
+	_, e2 := r.Collect(ctx, schema.StreamReaderFromArray([]string{"x"}))
+	vassert((e0 == nil) == (e1 == nil) && (e0 == nil) == (e2 == nil), "fan-in of any-typed nodes carrying maps: Invoke, Stream and Collect all succeed or all fail")
+}
